@@ -226,78 +226,3 @@ func VT_cache_script() {
 	s := New(10, LRU[int, int]().WithSize(func(v int) int64 { return int64(v) }))
 	vOut("sized", s.Put(1, 4), s.Put(2, 7), s.Put(3, 11), s.Put(4, 0), int(s.Size()), s.Len())
 }
-
-// VH_cache_Step: white-box step from an arbitrary valid recency heap: m entries
-// with symbolic distinct keys and symbolic distinct access times laid out in any
-// heap order, index consistent; one operation; then the whole eviction order is
-// observed by overflowing the cache with fresh keys.
-func VH_cache_Step() {
-	m := vCase("m")
-	const clock = 100
-	data := make([]prioKey[int, int], m)
-	for i := range data {
-		data[i] = prioKey[int, int]{lastAccess: int64(vOrd("t")), key: vOrd("k"), value: 10 + i}
-		vAssume(vAll(data[i].lastAccess >= 1, data[i].lastAccess <= clock))
-		for j := 0; j < i; j++ {
-			vAssume(vAll(data[j].key != data[i].key, data[j].lastAccess != data[i].lastAccess))
-		}
-		if i > 0 {
-			vAssume(data[(i-1)/2].lastAccess < data[i].lastAccess)
-		}
-	}
-	h := &vCacheH{ref: &vRefLRU{limit: m, sized: false}}
-	h.ref.sized = false
-	// reference recency order: insertion sort by access time
-	for _, d := range data {
-		pos := len(h.ref.es)
-		for p, e := range h.ref.es {
-			if d.lastAccess < vTimeOf(data, e.k) {
-				pos = p
-				break
-			}
-		}
-		es := append([]vEnt{}, h.ref.es[:pos]...)
-		es = append(es, vEnt{d.key, d.value})
-		h.ref.es = append(es, h.ref.es[pos:]...)
-	}
-	lru := &lruStore[int, int]{present: make(map[int]int), clock: clock}
-	for i, d := range data {
-		lru.present[d.key] = i
-	}
-	lru.access = heapqNewWithData(data)
-	lru.access.Update(func(v prioKey[int, int], pos int) { lru.present[v.key] = pos })
-	h.c = &Cache[int, int]{store: lru, limit: int64(m), size: int64(m), count: m,
-		sizeOf:  func(int) int64 { return 1 },
-		onEvict: func(k, v int) { h.log = append(h.log, vEnt{k, v}) }}
-	h.check("pre-state")
-	h.apply(vCase("op"), "step")
-	// a second use of an arbitrary key: a stale index entry would show here
-	h.apply(1+2*vChoice("then", 2), "second step")
-	// observe the complete eviction order
-	for len(h.ref.es) > 0 && len(h.log) < 2*m+2 {
-		k := vOrd("fresh")
-		vAssume(h.ref.absent(k))
-		for len(h.ref.es) < m { // refill to capacity first (no eviction)
-			want := h.ref.put(k, 1)
-			vAssert(h.c.Put(k, 1) == want, "refill Put")
-			k = vOrd("fresh")
-			vAssume(h.ref.absent(k))
-		}
-		want := h.ref.put(k, 1)
-		vAssert(h.c.Put(k, 1) == want, "overflow Put")
-		h.check("drain")
-		if len(h.log) >= m+1 {
-			break
-		}
-	}
-	vCover("step-done")
-}
-
-func vTimeOf(data []prioKey[int, int], k int) int64 {
-	for _, d := range data {
-		if d.key == k {
-			return d.lastAccess
-		}
-	}
-	return 0
-}
